@@ -69,7 +69,30 @@ func scenarioC17(rc *RunCtx) *Violation {
 			return drawCancel(g)
 		}
 	}
+	initial := map[string]bool{}
 	cfg.ExtraEdit = func(step int, pp *Project, dd *verifsim.Disk) string {
+		// the user deletes or modifies an output of an earlier build: the next build must
+		// put the reported bytes back (it may only skip a write after comparing contents)
+		if g.n(4) == 0 {
+			model := pp.Render()
+			paths, contents := dd.Files()
+			var outs []string
+			for _, f := range paths {
+				rel := strings.TrimPrefix(f, pp.Root+"/")
+				if _, isModel := model[rel]; !isModel && !initial[f] && !strings.HasPrefix(contents[f], "-> ") {
+					outs = append(outs, f)
+				}
+			}
+			if len(outs) > 0 {
+				f := outs[g.n(len(outs))]
+				if g.n(2) == 0 {
+					dd.RemoveAll(f)
+					return "user deletes output " + f
+				}
+				dd.PutFile(f, []byte(contents[f]+"/* tampered */"), true)
+				return "user modifies output " + f
+			}
+		}
 		if !globEntries || g.n(2) == 0 {
 			return ""
 		}
@@ -86,6 +109,11 @@ func scenarioC17(rc *RunCtx) *Violation {
 		return "add entry " + k
 	}
 	p.WriteTo(d, false)
+	if ps, _ := d.Files(); true {
+		for _, f := range ps {
+			initial[f] = true
+		}
+	}
 	rc.Note(fmt.Sprintf("proj:%x mode:%d", fnv64(fmt.Sprint(describeProject(p, o))), mode))
 	// glob entry point through the option model: patch after Build()
 	oBuild := *o
